@@ -31,7 +31,8 @@ def trs2llh(trs: np.ndarray, ellipsoid: Ellipsoid = None) -> np.ndarray:
     if trs.ndim < 1 or trs.ndim > 2 or trs.shape[-1] != 3:
         raise ValueError("'trs' must be a 1- or 2-dimensional array with 3 columns")
 
-    return _trs2llh(trs, ellipsoid)
+    # Hand out a copy, the cached array is shared by all calls with equal arguments
+    return _trs2llh(trs, ellipsoid).copy()
 
 
 @lru_cache()
@@ -108,7 +109,8 @@ def llh2trs(llh: np.ndarray, ellipsoid: Ellipsoid = None) -> np.ndarray:
     if llh.ndim < 1 or llh.ndim > 2 or llh.shape[-1] != 3:
         raise ValueError("'llh' must be a 1- or 2-dimensional array with 3 columns")
 
-    return _llh2trs(llh, ellipsoid)
+    # Hand out a copy, the cached array is shared by all calls with equal arguments
+    return _llh2trs(llh, ellipsoid).copy()
 
 
 @lru_cache()
